@@ -115,6 +115,9 @@ func Start(bin string, args []string, env []string, rows, cols int) (*Session, e
 }
 
 func (s *Session) Resize(rows, cols int) error {
+	s.mu.Lock()
+	s.last = time.Now()
+	s.mu.Unlock()
 	ws := winsize{Row: uint16(rows), Col: uint16(cols)}
 	if _, _, e := syscall.Syscall(syscall.SYS_IOCTL, s.master.Fd(), syscall.TIOCSWINSZ, uintptr(unsafe.Pointer(&ws))); e != 0 {
 		return e
@@ -122,7 +125,15 @@ func (s *Session) Resize(rows, cols int) error {
 	return nil
 }
 
-func (s *Session) Send(b []byte) { s.master.Write(b) }
+// Send types bytes. The quiet period of WaitQuiet is measured from the last output *or* the
+// last input, whichever is later, so that "send, wait until quiet" really waits for what
+// the input causes.
+func (s *Session) Send(b []byte) {
+	s.mu.Lock()
+	s.last = time.Now()
+	s.mu.Unlock()
+	s.master.Write(b)
+}
 
 // Output returns everything the program has written so far.
 func (s *Session) Output() string {
